@@ -275,6 +275,15 @@ def stepBackend (st : SuiteState) (toks : List String) : SuiteState × String :=
   | ["dellog"] =>
     (st, s!"dellog {joinOr (st.dellog.map (fun t => (if t.1 then "delcur:" else "del:") ++ hx t.2)) ","}")
   | ["parts", a, b] => (st, s!"parts {joinOr ((doPartitions c (unhx a) (unhx b)).map hx) ","}")
+  | ["streamadv", a, b, r] =>
+    -- a partition-parallel client: the advertised pieces, streamed one by one in the advertised order
+    let ps := doPartitions c (unhx a) (unhx b)
+    let pieces := ps.zip (ps.drop 1)
+    let outs : List (Nat × List String) := pieces.map (fun p =>
+      match doStream c st.b p.1 p.2 (atou r) with
+      | .ok res => (if res.endErr.isSome then 1 else 0, (res.batches.flatMap (fun b => b.2.map kvStr)).foldr insertStr [])
+      | _ => (1, []))
+    (st, s!"streamadv pieces={pieces.length} errs={(outs.map (fun o => o.1)).foldl (· + ·) 0} {joinOr (outs.flatMap (fun o => o.2)) ","}")
   | ["stream", a, b, r] =>
     if st.getFault then ({ st with getFault := false }, s!"stream - end {atou r} other last; ends=1") else
     match doStream c st.b (unhx a) (unhx b) (atou r) with
